@@ -193,7 +193,7 @@ def compile_closure(prep, ob, dflags, wd, tag, extra_inc):
     srcs = [s.replace('$BUILD', prep['build']).replace('$HARNESS', HARNESS) for s in srcs]
     for i, src in enumerate(srcs):
         ll = os.path.join(wd, '%stu%d.ll' % (tag, i))
-        flags = list(CLANG_FLAGS)
+        flags = list(CLANG_FLAGS) + list(ob.get('clang_flags', []))
         cmd = ['clang++-14'] + flags + inc + dflags + ['-include', 'vp_prelude.h', '-S', '-emit-llvm', src, '-o', ll]
         rc, o, e, _ = sh(cmd, timeout=600)
         if rc != 0:
@@ -208,7 +208,7 @@ def compile_closure(prep, ob, dflags, wd, tag, extra_inc):
         shutil.copy(lls[0], linked)
     opt = os.path.join(wd, tag + 'closure.ll')
     rc, o, e, _ = sh(['opt-14', '-S', '-enable-new-pm=0', '-internalize', '-internalize-public-api-list=' + ','.join([entry] + sorted(set(ob.get('redirect', {}).values())) + list(ob.get('keep', []))),
-                      '-globaldce', linked, '-o', opt], timeout=300)
+                      '-globaldce'] + list(ob.get('post_link_opt', [])) + [linked, '-o', opt], timeout=600)
     if rc != 0:
         raise Inconclusive('opt failed:\n' + e[-2000:])
     for f in lls + [linked]:
